@@ -367,6 +367,67 @@ def run(ctx):
                                   event=line - 1 - starts[si], observed=events[line - 1]))
             violations.append(dict(key=key, replay=rp, what="script %d (%s, kind=%s) event %d cfg=%s" % (
                 si, scripts[si]["origin"], scripts[si]["kind"], line - 1 - starts[si], json.dumps(scripts[si]["cfg"]))))
+    proc_level = {}
+    if prop == "C09":
+        # the 'clear' path as the daemon takes it: MotionProcessor.Reset (which also has to stop the recording, possibly
+        # with a failing stop) in front of the real detector; whatever the next frame contains, it has nothing to be
+        # compared with
+        import fam_proc
+        pscripts = [fam_proc.gen_random_script(ctx.rng, "C12") for _ in range(150 if tier == "quick" else 2500)]
+        for sc in pscripts:      # make resets frequent and let the scene change right after them
+            st2 = []
+            for st in sc["steps"]:
+                st2.append(st)
+                if st["a"] == "frame" and ctx.rng.random() < 0.08:
+                    st2.append(dict(a="reset", mStop=ctx.rng.random() < 0.5))
+                    st2.append(dict(a="frame", motion=True, win=True, disk=True))
+            sc["steps"] = st2
+        ptrace = fam_proc.drive(ctx, pscripts, "c09proc")
+        pviol, pnev = fam_proc.judge(ctx, ptrace, "c09procmon")
+        pevents = vlib.read_ndjson(ptrace)
+        for (line, tags) in pviol:
+            for t in tags:
+                if t.startswith("C09:") and t not in seen:
+                    seen.add(t)
+                    rp = vlib.save_replay(ctx, t.replace(":", "_"), dict(family="proc", property="C09", clause=t, observed=pevents[line - 1]))
+                    violations.append(dict(key=t, replay=rp, what="processor-level event %s" % json.dumps(pevents[line - 1])[:200]))
+        proc_level = dict(events=pnev, resets=sum(1 for e in pevents if e.get("ev") == "reset"))
+    chain_stats = {}
+    if prop == "C15":
+        # last clause: the background and threshold stored with a recording are the ones in force at its trigger -
+        # through the real MotionProcessor and, optionally, the real ThrottledRecorder (cuts and mid-trigger restarts)
+        rng = ctx.rng
+        cs = []
+        for i in range(60 if tier == "quick" else 1200):
+            c = rand_cfg(rng, dyn=True)
+            c["Cnt"], c["Gap"], c["One"] = 1, 1, True
+            fps = rng.choice([1, 2, 3])
+            sc = dict(cfg=c, fps=fps, preview_secs=rng.choice([0, 1]), min_secs=rng.choice([0, 1, 2]), max_secs=rng.choice([2, 3, 5]),
+                      trig=rng.choice([0, 1, 2]), steps=gen_stream(rng, c, rng.randint(25, 70), ffc=rng.random() < 0.3))
+            if sc["preview_secs"] * fps + sc["trig"] < 1:
+                sc["trig"] = 1
+            if rng.random() < 0.6:
+                sc["throttle"] = dict(bucket=rng.choice([1, 2, 3]), k=rng.choice([50, 300, 1000]), frame_ms=rng.choice([100, 500, 1000]))
+            cs.append(sc)
+        binm = ctx.go_test_build("./motion", "motion.test")
+        inp, outp = ctx.path("run", "chain.json"), ctx.path("run", "chain.ndjson")
+        json.dump(dict(scripts=cs), open(inp, "w"))
+        r = subprocess.run([binm, "-test.run", "^TestVerifStartArgs$"], env=dict(os.environ, VERIF_SCRIPT=inp, VERIF_OUT=outp),
+                           capture_output=True, text=True, timeout=1200)
+        if r.returncode != 0 or not os.path.exists(outp):
+            raise vlib.Infra("start-args driver failed: " + (r.stdout + r.stderr)[-3000:])
+        cviol, cnev = judge(ctx, outp, "chainmon")
+        cev = vlib.read_ndjson(outp)
+        for (line, tags) in cviol:
+            for t in tags:
+                if t.startswith("C15:") and t not in seen:
+                    seen.add(t)
+                    e = cev[line - 1]
+                    rp = vlib.save_replay(ctx, t.replace(":", "_"), dict(family="detect", property="C15", clause=t,
+                                          observed={k: e[k] for k in e if k not in ("bg", "det_bg")}))
+                    violations.append(dict(key=t, replay=rp, what=json.dumps({k: e[k] for k in e if k not in ("bg", "det_bg")})))
+        chain_stats = dict(scripts=len(cs), starts_observed=sum(1 for e in cev if e["ev"] == "sstart"),
+                           through_throttle=sum(1 for s in cs if "throttle" in s))
     rej, acc = conform(ctx, trace)
     conf = dict(events_accepted=acc, rejected_at=None)
     if rej is not None:
@@ -388,7 +449,8 @@ def run(ctx):
                     rule="TLC -simulate behaviours of the design model (4x3) + seeded boundary-biased streams 3x3..8x6 "
                          "(values at T, T+-1, delta, delta+-1, count-1/count/count+1 pixels, 0/65535 borders, FFC periods, "
                          "resets, paired streams); distinct by (cfg, steps)",
-                    conformance=conf, clauses_of_other_properties_fired=others)
+                    conformance=conf, clauses_of_other_properties_fired=others, processor_level_resets=proc_level,
+                    recording_start_arguments=chain_stats)
     return vlib.finish(ctx, violations, coverage, ASSUME)
 
 
